@@ -129,7 +129,10 @@ def run_case(case, ctx, scratch):
         except Exception as err:  # pylint: disable=broad-except
             O.report_exception(ctx, facts, err, case, what=route)
             return
-        text = exact_same(poly, back)
+        try:
+            text = exact_same(poly, back)
+        except Exception as err:  # pylint: disable=broad-except
+            text = f"the object obtained cannot be read: {type(err).__name__}: {err}"
         if text is None:
             problem = O.mismatch(back, pm)
             text = problem[1] if problem else None
